@@ -947,7 +947,26 @@ func randBytes(rng *rand.Rand, n int) []byte {
 }
 
 // genIP: net.IP values of every length 0..20, nil, mapped, near-mapped, extremes.
+// wellKnownV6 prefixes that embed or stand for IPv4 addresses, or that code may know by name
+// (NAT64 well-known and local-use, 6to4, Teredo, IPv4-compatible, ISATAP-like, documentation,
+// unique-local, link-local, multicast, discard-only)
+var wellKnownV6 = [][]byte{
+	{0x00, 0x64, 0xff, 0x9b, 0, 0, 0, 0, 0, 0, 0, 0}, {0x00, 0x64, 0xff, 0x9b, 0, 1, 0, 0, 0, 0, 0, 0}, {0x20, 0x02}, {0x20, 0x01, 0, 0},
+	{0, 0, 0, 0, 0, 0, 0, 0, 0, 0, 0, 0}, {0xfe, 0x80, 0, 0, 0, 0, 0, 0, 0, 0, 0x5e, 0xfe}, {0x20, 0x01, 0x0d, 0xb8}, {0xfd}, {0xfe, 0x80}, {0xff, 0x02},
+	{0x01, 0, 0, 0, 0, 0, 0, 0}, {0, 0, 0, 0, 0, 0, 0, 0, 0xff, 0xff, 0, 0}, {0, 0, 0, 0, 0, 0, 0, 0, 0, 0, 0xff, 0xfe},
+}
+
 func genIP(rng *rand.Rand) []byte {
+	if rng.IntN(14) == 0 {
+		// a well-known prefix, then zeros, then an IPv4-looking tail
+		b := make([]byte, 16)
+		copy(b, pick(rng, wellKnownV6...))
+		copy(b[12:], randBytes(rng, 4))
+		if rng.IntN(3) == 0 {
+			copy(b[12:], []byte{1, 2, 3, 4})
+		}
+		return b
+	}
 	switch rng.IntN(14) {
 	case 0:
 		return nil
